@@ -148,6 +148,11 @@ func (h *DirHandler) GetOutbound(fws ...fbb.Address) []*fbb.Message {
 		if len(fws) > 0 {
 			for _, fw := range fws {
 				if m.IsOnlyReceiver(fw) {
+					// Remove private headers
+					m.Header.Del("X-P2POnly")
+					m.Header.Del("X-FilePath")
+					m.Header.Del("X-Unread")
+
 					deliver = append(deliver, m)
 					break
 				}
